@@ -216,6 +216,15 @@ let run line =
     let pk = bx p in
     let r = rewrite_v6_lifetimes variant pk (n_of_decimal pref) (n_of_decimal valid) in
     hx r ^ " " ^ am (pk <> []) (r <> pk)
+  | "resp6" :: ty :: tx :: cl :: sv :: na :: pd :: nd :: rest ->
+    let (dns, rest) = take (int_of_string nd) rest in
+    let extras = match rest with _ :: e -> pairs_of e | [] -> [] in
+    let na = if na = "nil" then None else (match split_on ',' na with
+        | [i; a; p; v] -> Some (((n_of_decimal i, bx a), n_of_decimal p), n_of_decimal v) | _ -> failwith "iana") in
+    let pd = if pd = "nil" then None else (match split_on ',' pd with
+        | [i; a; o; p; v] -> Some ((((n_of_decimal i, bx a), ni o), n_of_decimal p), n_of_decimal v) | _ -> failwith "pd") in
+    let b = build_response6 (ni ty) (bx tx) (bx cl) (bx sv) na pd (List.map ip_of dns) extras in
+    hx b ^ " ; " ^ show_msg (parse_message6 b)
   | ["relay4"; gi; pol; o; p] ->
     let pol = match pol with "keep" -> Keep | "drop" -> Drop | _ -> Replace in
     res_bytes (fun b -> Printf.sprintf "%s gp=%s gi=%s hops=%d" (hx b) (gp_codes b)
